@@ -9,7 +9,7 @@ import pyfvtool as pf
 
 from ..oracles import CLASSES, NDIM, LIMITERS, SIDES, Geom
 from .. import gen, ops
-from ..common import SpySolver, residual_err, interior_index, nerr, absmv, to_list, TOL
+from ..common import SpySolver, residual_err, interior_index, nerr, absmv, to_list, TOL, solve_with
 
 ID = 'C06'
 RULE = ('cases = (grid class, N, spacing family, kind in {operator identities on a constant field for diffusion / central / '
@@ -26,9 +26,10 @@ def run_op(case, rng, cls, faces, meta, g, m):
     rows = interior_index(g.dims)
     c = float(rng.choice([-1.0, 1.0]) * 10 ** rng.uniform(-12, 12))
     ones = np.full(g.full_shape(), c)
-    D, _ = gen.face_arrays(rng, g, str(rng.choice(['sign', 'random'])), positive=True)
+    D, _ = gen.face_arrays(rng, g, str(rng.choice(['sign', 'random'])) if case.get('ufam') != 'int' else 'int', positive=True)
     u, ufam = gen.face_arrays(rng, g, case.get('ufam', 'sign'))
     uf = gen.facevar(pf, m, u)
+    cov['ufam:' + ufam] = 1
     x = ones.ravel()
     with np.errstate(all='ignore'):
         Md = sp.csr_array(pf.diffusionTerm(gen.facevar(pf, m, D)))
@@ -120,6 +121,14 @@ def run_steady(case, rng, cls, faces, meta, g, m):
         alpha = pf.CellVariable(m, np.exp(rng.normal(0, 1, g.dims)))
     D, _ = gen.face_arrays(rng, g, 'random', positive=True)
     scheme = str(rng.choice(['central', 'upwind', 'upwind+tvd', 'none']))
+    if case.get('tunit'):
+        # the same problem with time measured in another unit (slow processes in SI units: D ~ 1e-9 m2/s, steps of 1e9 s; or
+        # nanosecond steps): rates x 1/T, time step x T
+        Tu = float(10 ** (rng.uniform(8, 11) if rng.random() < 0.6 else rng.uniform(-11, -8)))
+        D = [a / Tu for a in D]
+        u = [a / Tu for a in u]
+        dt = dt * Tu
+        cov['time_unit:%s' % ('large' if Tu > 1 else 'small')] = 1
     uf = gen.facevar(pf, m, u)
     terms = [pf.transientTerm(phi, dt, alpha), -pf.diffusionTerm(gen.facevar(pf, m, D))]
     if scheme == 'central':
@@ -130,7 +139,7 @@ def run_steady(case, rng, cls, faces, meta, g, m):
             terms.append(pf.convectionTVDupwindRHSTerm(uf, phi, pf.fluxLimiter(str(rng.choice(LIMITERS)))))
     spy = SpySolver()
     with np.errstate(all='ignore'):
-        pf.solvePDE(phi, terms, externalsolver=spy)
+        solve_with(pf, spy, phi, terms, default_path=bool(case['seed'][-1] % 2))
     M, b, x = spy.last
     full_c = np.full(int(np.prod(g.full_shape())), c)
     # corner/edge ghost cells are decoupled dummy unknowns (value 0): take them from the solve
@@ -175,9 +184,12 @@ def run_source(case, rng, cls, faces, meta, g, m):
         if gen.bc_nonsingular(g, spec):
             break
     BC = gen.make_bc(pf, m, g, spec)
-    beta = rng.normal(0, 1, g.dims) * 10 ** rng.uniform(-3, 3)
-    beta = np.where(np.abs(beta) < 1e-6, 1.0, beta)
-    gamma = rng.normal(0, 1, g.dims) * 10 ** rng.uniform(-3, 3)
+    bexp = rng.uniform(-3, 3) if not case.get('tunit') else rng.uniform(-13, -8)      # rate constants of 1e-9 1/s are ordinary in SI units
+    beta = rng.normal(0, 1, g.dims) * 10 ** bexp
+    beta = np.where(np.abs(beta) < 1e-3 * 10 ** bexp, 10 ** bexp, beta)
+    gamma = rng.normal(0, 1, g.dims) * 10 ** (rng.uniform(-3, 3) if not case.get('tunit') else rng.uniform(-16, -6))
+    if case.get('tunit'):
+        cov['source_small_rates'] = 1
     phi = pf.CellVariable(m, rng.normal(0, 1, g.dims), BC)
     Mb = sp.csr_array(pf.linearSourceTerm(pf.CellVariable(m, beta.copy())))
     vg = np.asarray(pf.constantSourceTerm(pf.CellVariable(m, gamma.copy())))
@@ -206,7 +218,8 @@ def run_case(case):
     rng = gen.rng_for(*case['seed'])
     cls = case['cls']
     nd = NDIM[cls]
-    faces, meta = gen.gen_grid(rng, cls, nmin=1, nmax=case.get('nmax', 5 if nd < 3 else 4))
+    gfam, gopts = gen.geo_opts(rng, case.get('geo'))
+    faces, meta = gen.gen_grid(rng, cls, nmin=1 if not case.get('geo') else 2, nmax=case.get('nmax', 5 if nd < 3 else 4), family=gfam, opts=gopts)
     g = Geom(cls, faces)
     m = gen.build_mesh(pf, cls, faces)
     kind = case['kind']
@@ -218,7 +231,9 @@ def run_case(case):
     else:
         bad, cov, maxerr, k2, extra, nontrivial, note = run_source(case, rng, cls, faces, meta, g, m)
     cov['kind:%s:%s' % (kind, cls)] = 1
-    key = '%s/%s/%s/%s' % (cls, meta['n'], meta['family'], k2)
+    if case.get('geo'):
+        cov['geo:' + case['geo']] = 1
+    key = '%s/%s/%s/%s/%s/%s' % (cls, meta['n'], meta['family'], k2, case.get('geo'), case.get('tunit'))
     sample = dict({'grid': gen.describe_grid(meta, faces), 'kind': kind}, **extra)
     if bad is None:
         return {'verdict': 'inconclusive', 'key': key, 'msg': note, 'cov': cov, 'nontrivial': False}
@@ -239,6 +254,17 @@ def plan(tier, seed):
             for rep in range(n):
                 cases.append({'cls': cls, 'kind': kind, 'seed': [seed, 6, ci, i], 'ufam': ['sign', 'random', 'sign', 'const'][rep % 4]})
                 i += 1
+            for rep in range(max(3, n // 2) if kind != 'op' else (n if NDIM[cls] > 1 else 3 * n)):       # integer-typed coefficient arrays, special geometries, other time units
+                c_ = {'cls': cls, 'kind': kind, 'seed': [seed, 6, ci, i], 'ufam': 'sign'}
+                if kind == 'op':
+                    if rep % 3 != 2:
+                        c_['ufam'] = 'int'
+                    else:
+                        c_['geo'] = ['int', 'jitter', 'nano', 'mega'][(rep // 3) % 4]
+                else:
+                    c_['tunit'] = True
+                cases.append(c_)
+                i += 1
         step = 16 if NDIM[cls] == 3 else 40
         for j in range(0, len(cases), step):
             chunks.append(cases[j:j + step])
@@ -251,7 +277,7 @@ def floors(agg, tier):
         for kind, need in (('op', 10), ('steady', 10), ('source', 3)):
             if agg['cov'].get('kind:%s:%s' % (kind, cls), 0) < need:
                 out.append('kind:%s:%s < %d' % (kind, cls, need))
-    for k in ('steady:central', 'steady:upwind', 'steady:upwind+tvd', 'flow:stream', 'flow:radial', 'flow:uniform', 'steady_direct_checked'):
+    for k in ('ufam:int', 'geo:int', 'geo:jitter', 'time_unit:large', 'time_unit:small', 'source_small_rates', 'steady:central', 'steady:upwind', 'steady:upwind+tvd', 'flow:stream', 'flow:radial', 'flow:uniform', 'steady_direct_checked'):
         if agg['cov'].get(k, 0) < 5:
             out.append('%s < 5' % k)
     return out
